@@ -308,7 +308,10 @@ pub fn run(part: &mut Part) {
             // by a completed call may be reachable again
             let mut cseeds = vec![seed_empty_old(), seed_gc_ready(), seed_two_files(), seed_future()];
             cseeds.extend(gc_spill_seeds().into_iter().step_by(if q { 3 } else { 1 }));
-            let cprofiles = vec![prof("GC seeds x A_write (crash)", cseeds, a_write(), if TINY { if q { 2 } else { 3 } } else { 1 }), light_seeds_prof(a_write(), if q { 1 } else { 2 }, q)];
+            let mut c4alpha = a_write();
+            // an entry whose frames add up to exactly one WAL file
+            c4alpha.push(Op::app(QA, Pos::Auto, Sz::N((FILE - 59) as u32)));
+            let cprofiles = vec![prof("GC seeds x (A_write + an entry exactly one file long) (crash)", cseeds, c4alpha.clone(), if TINY { if q { 2 } else { 3 } } else { 1 }), light_seeds_prof(c4alpha, if q { 1 } else { 2 }, q)];
             let ccfgs: Vec<CrashCfg> = seeds_hash.iter().map(|(hs, _)| CrashCfg {
                 property: "C04", oracle: Oracle::C04, policy: PolicyCfg::Default, hash_seed: *hs, power_loss: false, second_crash: true, cont_struct: 1, cont_other: if q { 0 } else { 1 }, initial_open: false, pre_cut_last_file: None,
             }).collect();
@@ -370,6 +373,17 @@ pub fn run(part: &mut Part) {
                 Monitors { property: "C13", c13: true, policy: Some(PolicyCfg::DoNothing), ..Default::default() },
             ];
             run_seq(part, profiles, mons.clone());
+            // OnDelay policies whose interval elapses between particular calls: a rejected / no-op
+            // call must not be the one that flushes what earlier calls left in the buffer
+            {
+                let b0 = part.bounds.clone();
+                let dmons: Vec<Monitors> = if q { vec![PolicyCfg::DelayAltFlush1, PolicyCfg::DelayMod3Flush2] } else { vec![PolicyCfg::DelayAltFlush1, PolicyCfg::DelayMod3Flush2, PolicyCfg::DelayMod3Flush0, PolicyCfg::DelayAltFlush] }
+                    .iter()
+                    .map(|p| Monitors { property: "C13", c13: true, policy: Some(*p), ..Default::default() })
+                    .collect();
+                run_seq(part, vec![prof("empty x A_full under OnDelay with the interval elapsing before every 2nd / 3rd call", vec![seed_empty()], a_full(), if TINY { if q { 3 } else { 4 } } else { 2 })], dmons);
+                part.bounds = json!({"always_and_never_flushing": b0, "on_delay": part.bounds.clone()});
+            }
             run_seq_long_names(part, a_full(), if TINY { if q { 2 } else { 3 } } else { 1 }, mons.clone());
             run_seq_odd_names(part, a_shapes(), if TINY { if q { 2 } else { 3 } } else { 1 }, mons.clone());
             run_seq_oversize_names(part, if TINY { if q { 2 } else { 3 } } else { 1 }, mons);
@@ -425,6 +439,9 @@ pub fn run(part: &mut Part) {
             let seeds = thin(seeds, 3, q);
             let mut aw = a_write();
             aw.push(Op::app(QA, Pos::Auto, Sz::XL));
+            // an entry whose frames add up to exactly one WAL file (5 frames from mid-block / 4 from a
+            // block start): the cursor comes back to the same offset, one file further
+            aw.push(Op::app(QA, Pos::Auto, Sz::N((FILE - 59) as u32)));
             let profiles = if TINY {
                 vec![
                     prof("empty x (A_write + XL)", vec![seed_empty()], aw.clone(), if q { 3 } else { 4 }),
@@ -475,6 +492,7 @@ pub fn run(part: &mut Part) {
             alpha.push(Op::Persist(false));
             alpha.push(Op::Persist(true));
             alpha.push(Op::app(QA, Pos::Auto, Sz::XL));
+            alpha.push(Op::app(QA, Pos::Auto, Sz::N((FILE - 59) as u32)));
             let profiles = if TINY {
                 vec![prof("seeds x (A_write + Persist + XL)", seeds, alpha.clone(), if q { 2 } else { 3 }), light_seeds_prof(alpha, if q { 1 } else { 2 }, q),
                     // a GC pass that has to record the positions of thirty-odd empty queues
@@ -483,9 +501,9 @@ pub fn run(part: &mut Part) {
                 vec![prof("seeds x (A_write + Persist + XL)", seeds, alpha, if q { 1 } else { 2 })]
             };
             let mut cfgs = vec![];
-            let mut policies = vec![PolicyCfg::DoNothing, PolicyCfg::DelayNeverFlush, PolicyCfg::DelayExpiredFsync, PolicyCfg::AlwaysFlush, PolicyCfg::AlwaysFsync, PolicyCfg::DelayAltFlush];
+            let mut policies = vec![PolicyCfg::DoNothing, PolicyCfg::DelayExpiredFsync, PolicyCfg::AlwaysFlush, PolicyCfg::AlwaysFsync, PolicyCfg::DelayAltFlush];
             if !q {
-                policies.extend([PolicyCfg::DelayNeverFsync, PolicyCfg::DelayExpiredFlush, PolicyCfg::DelayAltFlush1]);
+                policies.extend([PolicyCfg::DelayNeverFlush, PolicyCfg::DelayNeverFsync, PolicyCfg::DelayExpiredFlush, PolicyCfg::DelayAltFlush1]);
             }
             for policy in policies {
                 for power_loss in [false, true] {
@@ -530,7 +548,7 @@ pub fn run(part: &mut Part) {
                 run_crash(part, pprofiles, pcfgs);
                 part.bounds = json!({"from_empty_directory": b0, "from_a_directory_whose_newest_file_was_created_but_not_sized": part.bounds.clone()});
             }
-            part.rule = "6 (thorough: 9) policy configurations x 2 loss models x every history of the bound (explicit persist ops and a roll-over append in the alphabet) x every crash point inside the last op; process crash: image = what reached the OS; power loss: image = durable prefix of directory ops x per-file prefix of unsynced effects; oracle: recovered state is S_j (or a partial truncate/delete of S_j) for some j >= the last persisted point. distinct_nontrivial = distinct (persisted point, crashed op, policy, matched state)".into();
+            part.rule = "5 (thorough: 9) policy configurations x 2 loss models x every history of the bound (explicit persist ops and a roll-over append in the alphabet) x every crash point inside the last op; process crash: image = what reached the OS; power loss: image = durable prefix of directory ops x per-file prefix of unsynced effects; oracle: recovered state is S_j (or a partial truncate/delete of S_j) for some j >= the last persisted point. distinct_nontrivial = distinct (persisted point, crashed op, policy, matched state)".into();
             part.assumptions.push("power-loss model: file data durable up to its last fdatasync, unsynced effects survive as any prefix per file; directory operations durable as a prefix after the last directory fsync".into());
         }
         "C12" => {
@@ -794,6 +812,9 @@ pub fn run(part: &mut Part) {
                     c17_leaf(env, leaf, 1);
                 }
                 c17_leaf(env, leaf, 2);
+                if !leaf.seed.ops.is_empty() {
+                    c17_leaf(env, leaf, 4);
+                }
                 if leaf.seed.name.starts_with("collected") {
                     c17_leaf(env, leaf, 3);
                 }
@@ -931,7 +952,7 @@ pub fn replay(path: &str) -> i32 {
         "c14" => c14_leaf(&mut env, &leaf),
         "c18" => c18_leaf(&mut env, &leaf),
         "c18-crash" => crate::crash::c18_crash_leaf(&mut env, &leaf),
-        "c17" => c17_leaf(&mut env, &leaf, match case["variant"].as_str().unwrap_or("") { "numbering-gaps" => 1, "symlink-on-next-wal-name" => 2, "non-regular-entries-on-collected-wal-names" => 3, _ => 0 }),
+        "c17" => c17_leaf(&mut env, &leaf, match case["variant"].as_str().unwrap_or("") { "numbering-gaps" => 1, "symlink-on-next-wal-name" => 2, "non-regular-entries-on-collected-wal-names" => 3, "symlink-on-wal-u64-max" => 4, _ => 0 }),
         "frame" => {
             let g = |k: &str| case[k].as_u64().map(|v| v as usize);
             let mut entries: Vec<Vec<u8>> = vec![];
